@@ -23,6 +23,12 @@ _FRESH = ("list", "dict", "set", "tuple", "sorted", "deepcopy", "copy")
 def _path(e):
     """-> (root name, [attrs], subscript index expr or None) for Name(.attr)*([idx])?   else None"""
     idx = None
+    if isinstance(e, ast.Call) and isinstance(e.func, ast.Name) and e.func.id == "len" and len(e.args) == 1 and not e.keywords:
+        # the length of a list held under a path: stable until the path is re-bound or the list mutated (like an element of it)
+        inner = _path(e.args[0]) if not isinstance(e.args[0], ast.Name) else (e.args[0].id, [], None)
+        if inner is None or inner[2] is not None or inner[0] == "<tuple>":
+            return None
+        return inner[0], inner[1], ast.Constant(value=0)
     if isinstance(e, ast.Tuple) and e.elts and all(isinstance(x, (ast.Name, ast.Constant)) for x in e.elts) and any(isinstance(x, ast.Name) for x in e.elts):
         # a tuple of locals / parameters handed around under one name
         return "<tuple>", [], ast.Tuple(elts=[x for x in e.elts if isinstance(x, ast.Name)], ctx=ast.Load())
@@ -49,6 +55,34 @@ class Summary:
         self.getter_reads: Dict[str, Set[str]] = {}
         self.setters: Set[str] = set()
         self.top: Set[str] = set()  # functions with dynamic stores (setattr with a computed name, __dict__ writes)
+        # attributes that hold plain containers (list / dict / set) vs. anything else, from annotations and initial values
+        self.container_attrs: Set[str] = set()
+        self.object_attrs: Set[str] = set()
+
+        def classify(name, ann, val):
+            txt = (ast.unparse(ann) if ann is not None else "")
+            head = txt.replace("Optional[", "").split("[")[0].split(".")[-1]
+            is_cont = head in ("List", "Dict", "Set", "list", "dict", "set", "Sequence", "MutableSequence", "Deque", "deque", "DefaultDict", "OrderedDict")
+            if val is not None:
+                if isinstance(val, (ast.List, ast.Dict, ast.Set, ast.ListComp, ast.DictComp, ast.SetComp)):
+                    is_cont = True
+                elif isinstance(val, ast.Call) and ast.unparse(val.func) in ("list", "dict", "set", "deque", "defaultdict"):
+                    is_cont = True
+                elif isinstance(val, ast.Call) and ast.unparse(val.func) == "field" and any(k.arg == "default_factory" and ast.unparse(k.value) in ("list", "dict", "set") for k in val.keywords):
+                    is_cont = True
+                elif ann is None and not isinstance(val, (ast.IfExp, ast.Name, ast.Constant)):
+                    pass
+            (self.container_attrs if is_cont else self.object_attrs).add(name)
+
+        for t in trees:
+            for cls in [n for n in ast.walk(t) if isinstance(n, ast.ClassDef)]:
+                for st in cls.body:
+                    if isinstance(st, ast.AnnAssign) and isinstance(st.target, ast.Name):
+                        classify(st.target.id, st.annotation, st.value)
+                for n in ast.walk(cls):
+                    if isinstance(n, ast.AnnAssign) and isinstance(n.target, ast.Attribute):
+                        classify(n.target.attr, n.annotation, n.value)
+        self.container_attrs -= self.object_attrs
         for t in trees:
             for fn in [n for n in ast.walk(t) if isinstance(n, (ast.FunctionDef, ast.AsyncFunctionDef))]:
                 decos = [ast.unparse(d) for d in fn.decorator_list]
@@ -106,8 +140,17 @@ class Summary:
                         else:
                             w.add("<any>")
                 elif isinstance(f, ast.Attribute):
-                    c.add(f.attr)
                     if f.attr in _MUTATORS:
+                        base = f.value
+                        if isinstance(base, ast.Name) and base.id in fresh:
+                            pass  # a method of a container built right here: not a call into the package
+                        elif isinstance(base, ast.Attribute) and base.attr in self.container_attrs:
+                            w.add(f"[{base.attr}]")
+                        else:
+                            c.add(f.attr)
+                    else:
+                        c.add(f.attr)
+                    if f.attr in _MUTATORS and not (isinstance(f.value, ast.Name) and f.value.id in fresh) and not (isinstance(f.value, ast.Attribute) and f.value.attr in self.container_attrs):
                         base = f.value
                         if isinstance(base, ast.Attribute):
                             w.add(f"[{base.attr}]")
@@ -183,21 +226,59 @@ def _expand_in_function(fn: ast.FunctionDef, summ: Summary, log=None) -> bool:
                                 names = {root} | ({n.id for n in ast.walk(idx) if isinstance(n, ast.Name)} if idx is not None else set())
                                 if root == "<tuple>":
                                     idx = None
-                                rebinding = any(isinstance(n, ast.Name) and n.id in names and isinstance(n.ctx, (ast.Store, ast.Del)) for s in span for n in ast.walk(s))
-                                # a loop in the span re-runs its body: a store anywhere in it counts (already covered: whole statements are scanned)
-                                written = summ.effect(span)
-                                local_mut = False
-                                if idx is not None and not attrs:
-                                    # element of a list held in a local / parameter: any in-place mutation through that name
-                                    for s in span:
-                                        for n in ast.walk(s):
+                                element = idx is not None and root != "<tuple>"
+
+                                def dirties(node) -> bool:
+                                    """may executing `node` (a statement or an expression) re-bind the path / mutate the list the element was taken from?"""
+                                    for n in ast.walk(node):
+                                        if isinstance(n, ast.Name) and n.id in names and isinstance(n.ctx, (ast.Store, ast.Del)):
+                                            return True
+                                        if element and not attrs:
                                             if isinstance(n, ast.Call) and isinstance(n.func, ast.Attribute) and n.func.attr in _MUTATORS and isinstance(n.func.value, ast.Name) and n.func.value.id == root:
-                                                local_mut = True
+                                                return True
                                             if isinstance(n, ast.Subscript) and isinstance(n.ctx, (ast.Store, ast.Del)) and isinstance(n.value, ast.Name) and n.value.id == root:
-                                                local_mut = True
-                                    if "[?]" in written:
-                                        local_mut = True
-                                if not rebinding and not local_mut and not summ.may_rebind(written, attrs, idx is not None):
+                                                return True
+                                    written = summ.effect([node])
+                                    if element and not attrs and "[?]" in written:
+                                        return True
+                                    return summ.may_rebind(written, attrs, element)
+
+                                def reads(node) -> bool:
+                                    return any(isinstance(n, ast.Name) and n.id == x and isinstance(n.ctx, ast.Load) for n in ast.walk(node))
+
+                                ok = [True]
+
+                                def scan(stmts, dirty):
+                                    """-> dirty after the statements (None: every path left the block)"""
+                                    for s in stmts:
+                                        if dirty is None:
+                                            return None
+                                        if isinstance(s, ast.If):
+                                            if reads(s.test) and dirty:
+                                                ok[0] = False
+                                            d0 = dirty or dirties(s.test)
+                                            d1, d2 = scan(s.body, d0), scan(s.orelse, d0)
+                                            dirty = None if d1 is None and d2 is None else bool(d1) or bool(d2)
+                                        elif isinstance(s, (ast.For, ast.While, ast.AsyncFor)):
+                                            head = s.iter if not isinstance(s, ast.While) else s.test
+                                            d_in = dirty or dirties(s)  # the body may run again after any of its writes
+                                            if reads(s) and d_in:
+                                                ok[0] = False
+                                            dirty = d_in
+                                        elif isinstance(s, (ast.With, ast.Try, ast.AsyncWith, ast.Match)) or isinstance(s, (ast.FunctionDef, ast.ClassDef)):
+                                            if reads(s) and (dirty or dirties(s)):
+                                                ok[0] = False
+                                            dirty = dirty or dirties(s)
+                                        else:
+                                            if reads(s) and dirty:
+                                                ok[0] = False
+                                            if isinstance(s, (ast.Return, ast.Raise, ast.Continue, ast.Break)):
+                                                return None
+                                            dirty = dirty or dirties(s)
+                                    return dirty
+
+                                scan(span, False)
+                                if ok[0]:
                                     return lst, i, x, st.value
                     if not isinstance(st, (ast.FunctionDef, ast.AsyncFunctionDef, ast.ClassDef)):
                         r = find(st)
